@@ -1,8 +1,178 @@
-(* Properties_C14.v — statements only (being built). *)
-From Coq Require Import List NArith ZArith Bool.
-From MV Require Import Bytes MsgModel.
-From MV.gen Require Import GenMsg.
+(* Properties_C14.v — statements only.  The client<->daemon codec is lossless and never trusts a length
+   (model: MsgModel; constants, type codes, member widths, sizeof (m->addr) and the measured bound on
+   DEC_RSP addr_len are regenerated from src/libcommon/m_msg.[ch] on every run).
 
+   lim = the largest addr_len that the DEC_RSP unpacker lets through to the copy into m->addr.  The
+   positive theorems hold for every lim <= sizeof_addr (the repaired code); for every larger lim they are
+   refuted (the code before the repair of defect D2 had no check: lim = 255).  C14_repo_guard ties the
+   repository's measured value to the positive side. *)
+From Coq Require Import List NArith ZArith Bool.
+From Coq.Strings Require Import Byte.
+From MV Require Import Bytes MsgModel MsgProofs.
+From MV.gen Require Import GenMsg.
+Import ListNotations.
+Local Open Scope Z_scope.
+
+(* ---- pack, then unpack: the same field values ------------------------------------------------------ *)
+(* for each of the six types, every message in range (u8 < 256, u32 < 2^32, variable lengths < 2^31 with
+   that many bytes behind the pointer, addr_len <= sizeof addr and <= lim), whatever the receiving
+   object acc holds: the carried members come out as they went in, nothing else is touched *)
+Theorem C14_pack_unpack : forall lim hp t m acc body q0,
+  (forall z, hp z = true) -> in_range lim t m ->
+  pack_list (pack_fields t) m 0 q0 = POk body ->
+  fst (msg_unpack_g lim hp (code_of t) body (Z.of_nat (length body)) acc)
+  = UOk (restrict t m acc) (Z.of_nat (length body)).
+Proof. exact pack_unpack. Qed.
+Print Assumptions C14_pack_unpack.
+
+(* m_msg_send on one side, m_msg_recv on the other (daemon: maxlen' = MUNGE_MAXIMUM_REQ_LEN, exptype =
+   UNDEF; client: maxlen' = 0, exptype = the response type) *)
+Theorem C14_send_recv : forall lim hp t m maxlen exptype maxlen' acc,
+  t <> T_HDR -> (forall z, hp z = true) -> u32_vals m -> in_range_list (unpack_fields_g lim t) m ->
+  (nv m Nretry < 256)%N ->
+  0 < sum_sizes (len_fields t) m < two31 ->
+  (maxlen <= 0 \/ sum_sizes (len_fields t) m <= maxlen) ->
+  (maxlen' <= 0 \/ sum_sizes (len_fields t) m <= maxlen') ->
+  (exptype = mt_undef \/ exptype = code_of t) ->
+  exists wire, send hp (code_of t) m maxlen = SOk wire
+    /\ Z.of_nat (length wire) = Z.of_N msg_hdr_size + msg_length t m
+    /\ fst (recv_g lim hp wire exptype maxlen' acc) = ROk (recv_expect t m acc (msg_length t m)).
+Proof. exact send_recv. Qed.
+Print Assumptions C14_send_recv.
+
+(* ... where the received message has, member by member: *)
+Theorem C14_received_members : forall t m acc n, t <> T_HDR ->
+  nv (recv_expect t m acc n) Ntype = code_of t
+  /\ nv (recv_expect t m acc n) Nretry = nv m Nretry
+  /\ nv (recv_expect t m acc n) Npkt_len = 0%N
+  /\ bv (recv_expect t m acc n) Bpkt = None
+  /\ err_local (recv_expect t m acc n) = err_local acc
+  /\ (forall f, carries_n (pack_fields t) f = true -> nv (recv_expect t m acc n) f = nv m f)
+  /\ (forall f, carries_n (pack_fields t) f = false -> carries_n (pack_fields T_HDR) f = false ->
+                nv (recv_expect t m acc n) f = nv acc f)
+  /\ (forall b, carries_b (pack_fields t) b = false -> b <> Bpkt -> bv (recv_expect t m acc n) b = bv acc b)
+  /\ (forall b lf, In (Var b lf Heap) (pack_fields t) ->
+        bv (recv_expect t m acc n) b
+        = if (nv m lf =? 0)%N then bv acc b else Some (firstn (N.to_nat (nv m lf)) (content m b)))
+  /\ (forall b lf cap lim, In (Var b lf (Fixed cap lim)) (pack_fields t) ->
+        bv (recv_expect t m acc n) b
+        = if (nv m lf =? 0)%N then bv acc b
+          else Some (firstn (N.to_nat (nv m lf)) (content m b) ++ skipn (N.to_nat (nv m lf)) (content acc b))).
+Proof. exact recv_expect_members. Qed.
+Print Assumptions C14_received_members.
+
+(* ---- the computed length is the number of bytes produced ---------------------------------------- *)
+Theorem C14_length_exact : forall t m q out, u32_vals m ->
+  pack_list (pack_fields t) m 0 q = POk out -> Z.of_nat (length out) = sum_sizes (len_fields t) m.
+Proof. exact length_exact. Qed.
+Print Assumptions C14_length_exact.
+
+(* and a buffer of exactly _msg_length bytes is enough and is filled completely *)
+Theorem C14_length_suffices : forall lim t m, u32_vals m -> in_range_list (unpack_fields_g lim t) m ->
+  0 < sum_sizes (len_fields t) m < two31 ->
+  msg_length t m = sum_sizes (len_fields t) m
+  /\ exists out, pack_list (pack_fields t) m 0 (msg_length t m) = POk out
+                 /\ Z.of_nat (length out) = msg_length t m.
+Proof. exact pack_total. Qed.
+Print Assumptions C14_length_suffices.
+
+(* ---- unpacking anything: total, reads inside the buffer, writes inside the destination ----------- *)
+(* every type code (any N, so 0..255 in particular), every byte string, every state of the receiving
+   object, every allocator: the result is a message or an error code, every read lies inside the
+   received buffer, every write inside its destination (member or heap block of len + 1 bytes) *)
+Theorem C14_unpack_total_and_bounded : forall lim hp code body m,
+  (lim <= sizeof_addr)%N ->
+  ures_final (fst (msg_unpack_g lim hp code body (Z.of_nat (length body)) m))
+  /\ Forall ev_ok (snd (msg_unpack_g lim hp code body (Z.of_nat (length body)) m)).
+Proof. intros. apply msg_unpack_total_bounded; [assumption|apply Z.le_refl]. Qed.
+Print Assumptions C14_unpack_total_and_bounded.
+
+(* the whole receive path (munged: exptype = UNDEF, maxlen = MUNGE_MAXIMUM_REQ_LEN; libmunge: the
+   response type, maxlen = 0), for every byte stream that arrives before EOF *)
+Theorem C14_recv_total_and_bounded : forall lim hp stream exptype maxlen m,
+  (lim <= sizeof_addr)%N ->
+  rres_final (fst (recv_g lim hp stream exptype maxlen m))
+  /\ Forall ev_ok (snd (recv_g lim hp stream exptype maxlen m)).
+Proof. exact recv_total_bounded. Qed.
+Print Assumptions C14_recv_total_and_bounded.
+
+(* ---- defect D2: without the bound the copy into m->addr leaves the member, and the object -------- *)
+Theorem C14_addr_unguarded_refuted :
+  exists body m' cap len,
+    fst (msg_unpack_g 255 (fun _ => true) mt_dec_rsp body (Z.of_nat (length body)) msg0) = UFault m'
+    /\ In (Wr cap 0 len) (snd (msg_unpack_g 255 (fun _ => true) mt_dec_rsp body (Z.of_nat (length body)) msg0))
+    /\ cap = Z.of_N sizeof_addr /\ len = 255 /\ cap < len
+    /\ Z.of_N sizeof_m_msg < Z.of_N off_addr + len.
+Proof. exact addr_unguarded_refuted. Qed.
+Print Assumptions C14_addr_unguarded_refuted.
+
+(* any bound above the size of the member is refuted by addr_len = that bound *)
+Theorem C14_any_larger_bound_refuted : forall lim, (sizeof_addr < lim)%N -> (lim < 256)%N ->
+  d2_faults lim lim = true.
+Proof. exact unguarded_faults. Qed.
+Print Assumptions C14_any_larger_bound_refuted.
+
+(* ---- the three tables (length, pack, unpack) agree; widths are the members' sizeof; every variable
+        field follows its length field; no member twice ------------------------------------------------- *)
 Theorem C14_symmetric_lists : forall lim, lists_agree lim = true.
-Proof. intros lim. reflexivity. Qed.
+Proof. exact lists_agree_all. Qed.
 Print Assumptions C14_symmetric_lists.
+
+Theorem C14_tables_widths_order : forall lim,
+  forallb (fun t => widths_ok (pack_fields t) && widths_ok (unpack_fields_g lim t) && widths_ok (len_fields t)
+                    && order_ok [] [] (pack_fields t) && order_ok [] [] (unpack_fields_g lim t)) all_types = true.
+Proof. exact tables_widths_order. Qed.
+Print Assumptions C14_tables_widths_order.
+
+(* ---- the repository: the measured bound protects the member --------------------------------------- *)
+(* measured on the current source: the DEC_RSP unpacker accepts addr_len up to exactly sizeof (m->addr) *)
+Theorem C14_repo_guard :
+  dec_rsp_probe_accepted = true /\ addr_len_accept_max = sizeof_addr /\ all_guarded addr_len_accept_max = true.
+Proof. repeat split. Qed.
+Print Assumptions C14_repo_guard.
+
+Theorem C14_repo_recv_total_and_bounded : forall hp stream exptype maxlen m,
+  rres_final (fst (recv hp stream exptype maxlen m)) /\ Forall ev_ok (snd (recv hp stream exptype maxlen m)).
+Proof. intros. apply recv_total_bounded. rewrite (proj1 (proj2 C14_repo_guard)). apply N.le_refl. Qed.
+Print Assumptions C14_repo_recv_total_and_bounded.
+
+(* ---- the daemon's receive path (job.c): every byte stream ends in "no reply, close" or in a request
+        that is handed to enc_process_msg / dec_process_msg in a consistent state: type ENC_REQ / DEC_REQ,
+        pkt released, no error recorded, every variable member either (length 0, NULL) or a block of exactly
+        its length (+ NUL) with 0 < length <= MUNGE_MAXIMUM_REQ_LEN.  This includes type code 1 as a body:
+        the nested header overwrites type / retry / pkt_len and the dispatcher then sees an all-zero
+        request.  The reply to such a request is a send of ENC_RSP / DEC_RSP (C14_send_recv with
+        exptype = the response type and maxlen' = 0 is the client's side of it). ----------------------- *)
+Theorem C14_recv_dispatch : forall lim hp stream, (lim <= sizeof_addr)%N -> job_ok (job_exec_g lim hp stream).
+Proof. exact recv_dispatch. Qed.
+Print Assumptions C14_recv_dispatch.
+
+Theorem C14_repo_recv_dispatch : forall hp stream, job_ok (job_exec hp stream).
+Proof. intros. apply recv_dispatch. rewrite (proj1 (proj2 C14_repo_guard)). apply N.le_refl. Qed.
+Print Assumptions C14_repo_recv_dispatch.
+
+(* type code 1 as a body, nested type ENC_REQ: dispatched as an encode request with no data *)
+Example C14_nested_header_example :
+  exists m, job_exec_g sizeof_addr (fun _ => true)
+              (hdr_bytes mt_hdr 0 11 ++ hdr_bytes mt_enc_req 7 0) = JEnc m
+            /\ nv m Nretry = 7%N /\ nv m Ndata_len = 0%N /\ bv m Bdata = None /\ nv m Npkt_len = 0%N.
+Proof. eexists. split; [vm_compute; reflexivity|]. repeat split. Qed.
+
+(* non-vacuity: an in-range DEC_RSP message with all variable members present survives the trip *)
+Example C14_roundtrip_example :
+  let m := setb (setb (setb (setb (setn (setn (setn (setn (setn msg0 Nerror_len 3) Nrealm_len 2) Naddr_len 4)
+             Ndata_len 5) Nttl 300) Berror (Some ["o";"k";x00]%byte)) Brealm (Some ["r";x00]%byte))
+             Baddr (Some [x7f;x00;x00;x01]%byte)) Bdata (Some ["h";"e";"l";"l";"o"]%byte) in
+  in_range sizeof_addr T_DEC_RSP m
+  /\ exists wire, send (fun _ => true) mt_dec_rsp m 0 = SOk wire
+       /\ length wire = 64%nat
+       /\ exists m', fst (recv_g sizeof_addr (fun _ => true) wire mt_dec_rsp 0 msg0) = ROk m'
+            /\ bv m' Bdata = Some ["h";"e";"l";"l";"o"]%byte /\ bv m' Baddr = Some [x7f;x00;x00;x01]%byte
+            /\ nv m' Nttl = 300%N.
+Proof.
+  cbv zeta. split.
+  - split; [|discriminate]. cbn. repeat split; try (vm_compute; reflexivity);
+      intros _; eexists; (split; [reflexivity|]); repeat split; vm_compute; congruence.
+  - eexists. split; [vm_compute; reflexivity|]. split; [reflexivity|].
+    eexists. split; [vm_compute; reflexivity|]. repeat split.
+Qed.
